@@ -447,6 +447,8 @@ pub fn run_all(e: &'static dyn Engine, ctx: &Ctx, agg: Aggregate) -> Aggregate {
     }
     let queue = Mutex::new(chunks);
     let agg = Mutex::new(agg);
+    let stop_after: usize =
+        std::env::var("VERIF_STOP_AFTER").ok().and_then(|s| s.parse().ok()).unwrap_or(300);
     std::thread::scope(|s| {
         for wid in 0..ctx.jobs {
             let queue = &queue;
@@ -456,6 +458,10 @@ pub fn run_all(e: &'static dyn Engine, ctx: &Ctx, agg: Aggregate) -> Aggregate {
                     if let Some(d) = ctx.deadline
                         && Instant::now() > d
                     {
+                        return;
+                    }
+                    // enough evidence of a violation: do not spend the whole budget re-finding it
+                    if agg.lock().unwrap().violations.len() >= stop_after {
                         return;
                     }
                     let Some(ch) = queue.lock().unwrap().pop_front() else { return };
@@ -468,7 +474,11 @@ pub fn run_all(e: &'static dyn Engine, ctx: &Ctx, agg: Aggregate) -> Aggregate {
     let left = queue.into_inner().unwrap();
     if !left.is_empty() {
         let n: u64 = left.iter().map(|c| c.hi - c.lo).sum();
-        agg.notes.push(format!("time budget reached: {n} planned cases were not run"));
+        if agg.violations.len() >= stop_after {
+            agg.notes.push(format!("stopped early after {} violating runs: {n} planned cases were not run", agg.violations.len()));
+        } else {
+            agg.notes.push(format!("time budget reached: {n} planned cases were not run"));
+        }
     }
     agg
 }
